@@ -137,9 +137,9 @@ R.contract(
 )
 R.contract(
     "Individual.get_fitness",
-    inline=True,
     file=IND,
     params=dict(self="Individual", problem="Problem?"),
+    defaults={"problem": "None"},
     returns="Fitness",
     requires={"evaluated": "problem is not None and problem in self.fitness_store"},
     ensures={"lookup": "same(result, self.fitness_store[problem])"},
